@@ -3,7 +3,8 @@
 //! (the same reader as the C14 dumps) and compared with the table the model predicts: which slot an allocation
 //! takes (free list first, LIFO; the fill mark only when the list is empty), how a chain is linked, in which
 //! order the slots of a removed chain enter the free list.
-//! Case line: 114 nops (1 k | 2 j)*   1 k: a value that needs k slots is stored; 2 j: the j-th live value (oldest first) is removed
+//! Case line: 114 nops (1 k | 2 j | 3 j k)*   1 k: a value that needs k slots is stored; 2 j: the j-th live value (oldest first) is
+//! removed; 3 j k: the j-th live value is replaced by one that needs k slots
 //! Observation: after every operation: filled, free head, number of slots, (class, next)*
 use crate::{props::c14::{dump_table, Slot}, rawdump::Raw, util::Out};
 use parity_db::{ColumnOptions, Db, Operation, Options};
@@ -40,7 +41,15 @@ pub fn main(args: &[String]) -> i32 {
 		let res = std::panic::catch_unwind(std::panic::AssertUnwindSafe(|| {
 			let db = Db::open_or_create(&o).unwrap();
 			for _ in 0..nops {
-				if live.is_empty() || rng.chance(3, 5) {
+				if multipart && !live.is_empty() && rng.chance(1, 4) {
+					// a value is replaced by one of another (or the same) number of slots: the chain is reused, grows or shrinks
+					let j = rng.below(live.len() as u64) as usize;
+					let k = rng.range(9, 14);
+					let len = (k * 4086 - 26 - 2000) as usize;
+					let val = rng.bytes(len);
+					db.commit_changes(vec![(0u8, Operation::Set(live[j].clone(), val))]).unwrap();
+					case.extend_from_slice(&[3, j as u64, k]);
+				} else if live.is_empty() || rng.chance(3, 5) {
 					let k = if multipart { rng.range(9, 14) } else { 1 };
 					let len = if multipart { (k * 4086 - 26 - 2000) as usize } else { (sizes[tier] - 2 - 26) as usize };
 					let key = rng.bytes(32);
